@@ -96,7 +96,23 @@ func runC13(src sim.Source, o Opts) *Result {
 	if globalTS != 2 {
 		routeTS = 2
 	}
-	cfg := world.Cfg{NoMethod: true, AutoOptions: true, GlobalTS: globalTS, ExtrasFirst: sim.Bool(src, "mwoptionsfirst")}
+	// 405 handling and automatic OPTIONS replies are each switched off one time in four: a request whose method has no
+	// route then ends in the no-route handler (behind the middleware scoped to THAT handler), an OPTIONS request in the
+	// no-method handler or the no-route handler
+	cfg := world.Cfg{NoMethod: src.Intn("with405", 4) != 3, AutoOptions: src.Intn("withautooptions", 4) != 3, GlobalTS: globalTS, ExtrasFirst: sim.Bool(src, "mwoptionsfirst")}
+	if useDefault {
+		cfg.AutoOptions = true // DefaultOptions() switches automatic OPTIONS replies on
+	}
+	kNoMethod := model.KNoMethod
+	if !cfg.NoMethod {
+		kNoMethod = model.KNoRoute
+		res.inc("config_405_off")
+	}
+	kOptions := model.KOptions
+	if !cfg.AutoOptions {
+		kOptions = kNoMethod
+		res.inc("config_auto_options_off")
+	}
 	if cfg.ExtrasFirst {
 		res.inc("config_middleware_options_before_handler_options")
 	}
@@ -253,8 +269,8 @@ func runC13(src sim.Source, o Opts) *Result {
 	if !check("no route", world.Probe{Method: "GET", Path: "/nothing/here"}, model.KNoRoute, nil) ||
 		!check("no route (OPTIONS request for a path no method serves, automatic replies on)", world.Probe{Method: "OPTIONS", Path: "/nothing/here"}, model.KNoRoute, nil) ||
 		!check("no route (method without routes, 405 on)", world.Probe{Method: "PURGE", Path: "/nothing/here"}, model.KNoRoute, nil) ||
-		!check("no method", world.Probe{Method: "POST", Path: "/r0/v"}, model.KNoMethod, nil) ||
-		!check("options", world.Probe{Method: "OPTIONS", Path: "/r0/v"}, model.KOptions, nil) ||
+		!check("no method", world.Probe{Method: "POST", Path: "/r0/v"}, kNoMethod, nil) ||
+		!check("options", world.Probe{Method: "OPTIONS", Path: "/r0/v"}, kOptions, nil) ||
 		!check("redirect", world.Probe{Method: "GET", Path: "/r0/v/"}, model.KRedirect, nil) {
 		return res
 	}
@@ -331,7 +347,7 @@ func runC13(src sim.Source, o Opts) *Result {
 				p    world.Probe
 				kind model.Kind
 			}{{world.Probe{Method: "GET", Path: strings.Replace(r1.Pattern, "{x}", "v", 1)}, model.KRoute}, {world.Probe{Method: "GET", Path: "/nothing/here"}, model.KNoRoute},
-				{world.Probe{Method: "POST", Path: strings.Replace(r1.Pattern, "{x}", "v", 1)}, model.KNoMethod}, {world.Probe{Method: "OPTIONS", Path: strings.Replace(r1.Pattern, "{x}", "v", 1)}, model.KOptions}} {
+				{world.Probe{Method: "POST", Path: strings.Replace(r1.Pattern, "{x}", "v", 1)}, kNoMethod}, {world.Probe{Method: "OPTIONS", Path: strings.Replace(r1.Pattern, "{x}", "v", 1)}, kOptions}} {
 				res.Checks++
 				obs := w2.Serve(q.p, "", "", nil)
 				want := expectedTrace(glob, q.kind, nil)
@@ -350,7 +366,7 @@ func runC13(src sim.Source, o Opts) *Result {
 	// with a foreign route is not judged)
 	if src.Intn("foreignrouter", 3) == 2 {
 		res.inc("route_object_registered_on_a_second_router")
-		other, err := world.Build(world.Cfg{NoMethod: true, AutoOptions: true, GlobalTS: globalTS, NoRedirectSpy: true}, fox.WithMiddleware(traceMW(150)), fox.WithMiddlewareFor(fox.RouteHandler, traceMW(151)))
+		other, err := world.Build(world.Cfg{NoMethod: cfg.NoMethod, AutoOptions: cfg.AutoOptions, GlobalTS: globalTS, NoRedirectSpy: true}, fox.WithMiddleware(traceMW(150)), fox.WithMiddlewareFor(fox.RouteHandler, traceMW(151)))
 		if err != nil {
 			res.Trouble = err.Error()
 			return res
